@@ -361,6 +361,8 @@ pub struct PropReport {
     pub exhaustive: bool,
     /// generator floors that were not met: (counter, got, wanted)
     pub floor_misses: Vec<(String, u64, u64)>,
+    pub corpus_ok: u64,
+    pub corpus_failures: Vec<(String, String)>,
 }
 
 impl PropReport {
@@ -376,6 +378,8 @@ impl PropReport {
             extra: BTreeMap::new(),
             exhaustive: false,
             floor_misses: vec![],
+            corpus_ok: 0,
+            corpus_failures: vec![],
         }
     }
     pub fn push(&mut self, name: &str, o: Outcome) {
@@ -445,6 +449,12 @@ impl PropReport {
                 println!("  engine={} message={}", f.engine, f.message);
             }
         }
+        for (path, m) in &self.corpus_failures {
+            violations += 1;
+            println!("VIOLATION property={} replay={}", self.property, path);
+            println!("  corpus case: {m}");
+        }
+        evaluations += self.corpus_ok + self.corpus_failures.len() as u64;
         for (k, v) in &known {
             println!(
                 "KNOWN-FINDING: property={} key={} hits={} e.g. {}",
@@ -463,6 +473,7 @@ impl PropReport {
         coverage.insert("engines".into(), Value::Object(per_engine));
         coverage.insert("known_findings".into(), Value::Object(known));
         coverage.insert("exhaustive".into(), json!(self.exhaustive));
+        coverage.insert("corpus_cases_replayed".into(), json!(self.corpus_ok + self.corpus_failures.len() as u64));
         if !self.floor_misses.is_empty() {
             coverage.insert(
                 "generator_floor_misses".into(),
